@@ -63,9 +63,24 @@ func (lc *libCheck) run(a *artefacts, tier string, seed uint64) int {
 	}
 
 	// 2. exploration
-	m, err := runBatches(a, lc.Kind, tier, seed, total, lc.PerBatch, deadline)
+	m, err := runBatches(a, lc.Kind, tier, seed, total, lc.PerBatch, deadline, rep.ff.sigsOf(lc.Prop)...)
 	if err != nil {
 		die(2, "batch: %v", err)
+	}
+	// listed known findings: one world each is minimised, replayed and printed as KNOWN-FINDING; they
+	// do not use up the violation budget of the exploration
+	for i, v := range m.Known {
+		min, o := lc.minimise(a, v)
+		if o == nil {
+			die(2, "known finding of %s (class %s) did not reproduce in a fresh process: simulator not deterministic? spec seed %d", lc.Prop, v.Class, v.Spec.Seed)
+		}
+		payload, _ := json.Marshal(min)
+		rf := &replayFile{Property: lc.Prop, Kind: "lib:" + lc.Kind, Class: o.Class, Sig: o.Sig, Msg: o.Msg, Seed: v.Spec.Seed, LogHash: o.LogHash, Payload: payload}
+		path := writeReplay(rf, 50+i)
+		if ok, why := lc.replay(a, rf); !ok {
+			die(2, "replay file %s does not reproduce: %s", path, why)
+		}
+		rep.report(o.Sig, o.Msg, path)
 	}
 
 	// 3. violations: minimise, write replay, verify replay in a fresh process
@@ -142,6 +157,7 @@ func (lc *libCheck) run(a *artefacts, tier string, seed uint64) int {
 		"faults_fired":         faults,
 		"probes":               probes,
 		"counters":             other,
+		"known_finding_worlds": m.KnownHits,
 		"determinism_selftest": fmt.Sprintf("%d seeds x 3 processes (GOMAXPROCS 1,4,16): identical event-log hashes", detN),
 		"real_vs_stub":         lc.RealStub,
 		"tree":                 a.Hash,
